@@ -619,6 +619,21 @@ class Session:
                 obs["exc"] = "injected"
             if tells[m] in adm:
                 o.seek(tells[m])
+            elif msg is None and op not in BYTES_OPS and isinstance(tells[m], int) and start <= tells[m] <= len(o.getvalue()):
+                # readlines() / list(member) are several file-object steps: HOW FAR a call that failed half-way got is an
+                # artefact of the implementation (line by line today; a block-wise readlines() - benign change C06-R -
+                # stops at a block end).  The statement is silent, so this is unspecified: the member is put back to where
+                # the call started by an ordinary seek (position start is what the specification's FaultLines(0) says) and
+                # the history carries on; what the NEXT calls return is judged as always.
+                count(ctx, "faults_injected", "raise: multi-step call stopped off a line boundary (unspecified, re-synchronised)") if ctx is not None else None
+                try:
+                    self.members[m].seek(start, 0)
+                except Exception:
+                    pass
+                tells[m] = safe_tell(self.members[m])
+                o.seek(start)
+                if tells[m] != start:
+                    msg = "%s (propagated); seek(%d) afterwards leaves tell() at %r" % (where, start, tells[m])
             elif msg is None:
                 msg = "%s (propagated); tell() is %r afterwards, the specification allows %r" % (where, tells[m], adm)
             rtells = [x.tell() for x in self.oracles]
